@@ -242,10 +242,27 @@ use metrique_aggregation::aggregator::Aggregate;
 use metrique_aggregation::sink::MutexSink;
 use metrique_aggregation::traits::RootSink;
 
+metrique_writer_core::__verif::loom::lazy_static! {
+    static ref MERGE_STEP: Shadow = Shadow::new();
+}
+
+/// `Sum` with a scheduler-visible step inside: loom never switches threads between a mutex
+/// acquisition and its release unless the critical section contains a visible operation, so
+/// without this a lock *held by a merge* could never be observed by another thread (e.g. by a
+/// `try_lock` in `close`). The harness-defined merge step is that operation.
+pub struct VSum;
+impl metrique_aggregation::traits::AggregateValue<u64> for VSum {
+    type Aggregated = u64;
+    fn insert(accum: &mut u64, value: u64) {
+        MERGE_STEP.touch();
+        *accum += value;
+    }
+}
+
 #[aggregate]
 #[metrics]
 pub struct Tot {
-    #[aggregate(strategy = Sum)]
+    #[aggregate(strategy = VSum)]
     n: u64,
 }
 
@@ -283,7 +300,7 @@ pub fn c10_mutex(cfg: &J) {
     let mergers: Vec<Vec<u64>> = cfg["mergers"].as_array().unwrap().iter().map(|m| m.as_array().unwrap().iter().map(|v| v.as_u64().unwrap()).collect()).collect();
     let join_first = cfg["join_first"].as_bool().unwrap_or(false);
     let sink: MutexSink<Aggregate<Tot>> = MutexSink::new(Aggregate::default());
-    let done: Arc<Mutex<Vec<u64>>> = Arc::new(Mutex::new(Vec::new()));
+    let done: crate::rec::Visible<Vec<u64>> = crate::rec::Visible::new();
     let mut threads: Vec<_> = mergers
         .iter()
         .cloned()
@@ -293,7 +310,7 @@ pub fn c10_mutex(cfg: &J) {
             Some(thread::spawn(move || {
                 for v in vals {
                     s.merge(Tot { n: v }.close());
-                    done.lock().unwrap().push(v);
+                    done.update(|d| d.push(v));
                 }
             }))
         })
@@ -303,7 +320,7 @@ pub fn c10_mutex(cfg: &J) {
             t.take().unwrap().join().unwrap();
         }
     }
-    let before: Vec<u64> = done.lock().unwrap().clone();
+    let before: Vec<u64> = done.read();
     let closed = Outer { tot: sink }.close();
     let mut c = CollectN(0);
     metrique::RootEntry::new(closed).write(&mut c);
